@@ -55,11 +55,11 @@ def stamp(t):
 
 
 class RepoWorld:
-    def __init__(self):
+    def __init__(self, reponame='repo'):
         env.reset_globals()
         self.w = world.World('F')
         self.spec = world.Spec(['new', 'mod'], oids=(1, 2, 3, 4, 5, 6))
-        self.repo = os.path.join(self.w.dir, 'repo')
+        self.repo = os.path.join(self.w.dir, reponame)
         os.mkdir(self.repo)
         self.path = self.w.path
         self.violations = []
@@ -100,6 +100,10 @@ class RepoWorld:
             # the backup runs
             ops.append(('backup-ticking',))
             ops.append(('backup-ticking', 'F'))
+        if self.backups:
+            # another backup within the same second as the last step
+            ops.append(('backup-same-second',))
+            ops.append(('backup-same-second', 'F'))
         return ops
 
     def committed_prefix(self):
@@ -132,9 +136,11 @@ class RepoWorld:
                            self.spec)
         if k == 'pack':
             return w.apply(('pack',), self.spec)
-        if k in ('backup', 'backup-inflight', 'backup-ticking'):
+        if k in ('backup', 'backup-inflight', 'backup-ticking',
+                 'backup-same-second'):
             flags = op[1:]
-            w.tick()
+            if k != 'backup-same-second':
+                w.tick()
             t = None
             if k == 'backup-inflight':
                 # a writer between vote and finish
@@ -157,6 +163,14 @@ class RepoWorld:
             if t is not None:
                 w.storage.tpc_abort(t)
             made = sorted(set(os.listdir(self.repo)) - before)
+            if r is not None and k == 'backup-same-second' and \
+                    'Cannot overwrite' in r:
+                # file names have a resolution of a second: refusing is
+                # fine, if nothing was written
+                if made:
+                    self.bad('backup', 'refused-but-wrote-files',
+                             dict(argv=argv, made=made))
+                return 'backup-refused'
             if r is not None:
                 self.bad('backup', 'failed:%s' % r.split(':')[1][:30],
                          dict(argv=argv, result=r))
@@ -274,7 +288,7 @@ class RepoWorld:
 
 
 def build(cfg, hist, spec):
-    w = RepoWorld()
+    w = RepoWorld(cfg.get('reponame', 'repo'))
     for op in list(cfg.get('start', [])) + list(hist):
         w.apply(tuple(op))
     return w
@@ -398,7 +412,8 @@ def run(rep, tier, seed, workers):
         'sets (none, F, Q, z, k, Fz; all 10 in the thorough tier), backup '
         'while a transaction is between vote and finish (plain and quick), '
         'backup during which the clock moves on one second at every '
-        'reading (plain and full)} '
+        'reading (plain and full), backup within the same second as the '
+        'step before (plain and full; it may be refused)} '
         'through repozo.main with a virtual clock, from the initial state '
         'and (plain and quick backups only) from a state whose newest '
         'increment is empty; after every history: '
@@ -415,7 +430,12 @@ def run(rep, tier, seed, workers):
     cfg2 = dict(prop='C18', flagsets=[[], ['Q']], inflight=False,
                 start=EMPTY_INC)
     fps2 = seqx.explore(rep, MOD, cfg2, depth - 1, workers, seed, split=1)
-    rep.cov['states'] = max(len(fps) + len(fps2), 1)
+    # a repository path with a blank in it
+    cfg3 = dict(prop='C18', flagsets=[[], ['Q'], ['z']], inflight=False,
+                reponame='my repo')
+    fps3 = seqx.explore(rep, MOD, cfg3, depth - 1, workers, seed, split=1)
+    rep.bounds['depth with a blank in the repository path'] = depth - 1
+    rep.cov['states'] = max(len(fps) + len(fps2) + len(fps3), 1)
     rep.bounds['history depth'] = depth
     rep.bounds['depth after commit, commit, full backup, quick backup with '
                'a transaction in progress'] = depth - 1
